@@ -545,6 +545,8 @@ def check(prop):
         extra = crash_points(rep, wd, rng, quick)
     if prop == "C06":
         extra = verify_size_classes(rep, wd, rng, quick)
+    if prop == "C09":
+        extra = rewrite_size_classes(rep, wd, rng, quick)
     if prop == "C07":
         extra = clean_histories(rep, wd, rng, quick)
         extra.update(pp_clean(rep, wd, rng, quick))
@@ -765,6 +767,75 @@ def verify_size_classes(rep, wd, rng, quick):
         if a != b:
             rep.violation(f"verifysize:touched:{n}:{shape}", f"verify touched the output {ctx}", dict(size=n, shape=shape, before=str(a)[:200], after=str(b)[:200]))
     return dict(verify_size_class_cases=n_checked)
+
+
+def rewrite_size_classes(rep, wd, rng, quick):
+    """C09 beyond the small files of the scenarios (seed r6-C09-stream-compare-no-consume): outputs and temp files of sizes around the
+    8 KiB buffer boundaries with non-periodic content. History: build, [tamper], needed-build, build, needed-build (a snapshot before each). An up-to-date output
+    keeps bytes, inode and mtime through every needed-build, an up-to-date temp file through every building run; a stale or missing one
+    is brought back to the bytes of the first build."""
+    sizes = [0, 1, 100, 8191, 8192, 8193, 16384, 24576, 70001] if quick else [0, 1, 2, 100, 4095, 4096, 8191, 8192, 8193, 9999, 16383, 16384, 16385, 24576, 65536, 70001, 200003]
+
+    def lines_of(n):
+        out, i = [], 0
+        while sum(len(x) + 1 for x in out) < n:
+            out.append(f"line {i} of the generated text {i * 7919 % 10007}")
+            i += 1
+        return out
+    cases, meta = [], []
+    for n in sizes:
+        ls = lines_of(n)
+        body = "\n".join(ls) + ("\n" if ls else "")
+        for shape in ("text", "include", "temp"):
+            if shape == "text":
+                files = [dict(path="p/o.txt.txtpp", text=body)]
+            elif shape == "include":
+                files = [dict(path="p/o.txt.txtpp", text="TXTPP#include big.dat\n"), dict(path="p/big.dat", text=body)]
+            else:
+                files = [dict(path="p/o.txt.txtpp", text="head\n" + "\n".join(["// TXTPP#temp big.gen"] + ["// " + x for x in ls]) + "\ntail\n")]
+            target = "p/big.gen" if shape == "temp" else "p/o.txt"
+            for tam in ("none", "flip-mid", "flip-last", "drop-last", "append1", "delete"):
+                run = lambda mode: dict(run=dict(base="p", inputs=["o.txt"], mode=mode, trailing=True, threads=1))
+                steps = [run("build"), dict(snapshot=True), dict(tamper=dict(path=target, how=tam)), run("needed"), dict(snapshot=True), run("build"), dict(snapshot=True), run("needed")]
+                cases.append(dict(id=f"w{len(cases)}", files=files, sentinel=True, steps=steps))
+                meta.append((n, shape, tam, target))
+    res = pp_vh_cases_tamper(cases, wd)
+    n_checked = 0
+    for (n, shape, tam, target), r in zip(meta, res):
+        if r.get("skipped"):
+            continue
+        st = r["steps"]
+        if st[0]["verdict"] != "ok":
+            rep.note(f"(belongs to C01) build of a {n}-byte {shape} source failed")
+            continue
+        first = st[1]["tree"]
+        ctx = f"[{shape} of about {n} bytes, tampering {tam} of {target}]"
+        n_checked += 1
+        trees = [first]
+        for i, mode in ((3, "needed"), (5, "build"), (7, "needed")):
+            if st[i]["verdict"] != "ok":
+                rep.violation(f"rewritesize:verdict:{n}:{shape}:{tam}", f"{mode}-build fails where the build succeeded {ctx}", dict(size=n, shape=shape, tamper=tam, step=i))
+                break
+            t = st[i]["tree"]
+            prev = st[1]["tree"] if i == 3 else st[i - 1]["tree"]   # the snapshot taken just before the run (the runner ages files at snapshots)
+            for path in ("p/o.txt", "p/big.gen"):
+                if path not in first:
+                    continue
+                a, b, f0 = prev.get(path), t.get(path), first.get(path)
+                same_bytes = b is not None and {k: v for k, v in b.items() if k not in ("mtime", "ino", "inode")} == {k: v for k, v in f0.items() if k not in ("mtime", "ino", "inode")}
+                if not same_bytes:
+                    rep.violation(f"rewritesize:bytes:{n}:{shape}:{tam}", f"after the {mode}-build (step {i}) {path} does not hold the bytes a build writes {ctx}",
+                                  dict(size=n, shape=shape, tamper=tam, step=i, first=str(f0)[:200], now=str(b)[:200]))
+                    continue
+                # was the file correct before this run? (step 3 follows the tampering of `target`)
+                correct_before = not (i == 3 and path == target and st[2].get("changed", False))
+                is_temp = path == "p/big.gen"
+                if correct_before and (is_temp or mode == "needed") and a != b:
+                    what = "temp file" if is_temp else "output"
+                    rep.violation(f"rewritesize:rewritten:{n}:{shape}:{path}", f"the {mode}-build (step {i}) rewrote the {what} {path} although its content was already correct (inode/mtime changed) {ctx}",
+                                  dict(size=n, shape=shape, tamper=tam, step=i, before=str(a)[:200], after=str(b)[:200]))
+            trees.append(t)
+    return dict(rewrite_size_class_cases=n_checked)
 
 
 def pp_vh_cases_tamper(cases, wd):
